@@ -97,9 +97,9 @@ fn run_learn(n: &mut Network, data: &[(Tensor, Tensor)], val: Option<(&[(Tensor,
     match val {
         Some((v, th)) => {
             let (vx, vy) = refs(v);
-            n.learn(&xs, &ys, Some((&vx, &vy, th)), batch, epochs, None)
+            n.learn(&xs, &ys, Some((&vx, &vy, th)), batch, epochs, crate::case::print_freq(batch, epochs))
         }
-        None => n.learn(&xs, &ys, None, batch, epochs, None),
+        None => n.learn(&xs, &ys, None, batch, epochs, crate::case::print_freq(batch, epochs)),
     }
 }
 fn run_validate(n: &mut Network, data: &[(Tensor, Tensor)], tol: f32) -> (f32, f32) {
